@@ -19,7 +19,7 @@ use std::rc::Rc;
 
 const IMM_FORGERIES: [&str; 7] = ["authentic", "other-value", "bit-flip", "empty", "over-long", "mutable-shaped", "truncated"];
 const MUT_FORGERIES: [&str; 16] = ["authentic", "authentic-older-seq", "authentic-same-seq-other-value", "negated-seq", "seq-plus-2-pow-32", "other-key", "other-salt", "no-salt-sig", "altered-seq", "altered-value", "flip-k", "flip-sig", "over-long-v", "ro-flagged", "short-k", "immutable-shaped"];
-const SIG_FORGERIES: [&str; 11] = ["authentic", "authentic-older", "authentic-newer", "other-infohash", "other-timestamp", "other-key", "flip-sig", "mixed-valid-invalid", "empty-entry", "short-entry", "double-entry"];
+const SIG_FORGERIES: [&str; 13] = ["authentic", "authentic-older", "authentic-newer", "other-infohash", "other-timestamp", "other-key", "flip-sig", "mixed-valid-invalid", "empty-entry", "short-entry", "double-entry", "undecodable-key-first", "undecodable-key-between"];
 
 #[derive(Clone)]
 struct Truth {
@@ -108,6 +108,23 @@ fn signed_entries(tr: &Truth, forgery: &str, rng: &mut Rng) -> Vec<Vec<u8>> {
             vec![e]
         }
         "mixed-valid-invalid" => vec![good, entry(&tr.signer, &[0x66; 20], tr.ts, tr.ts), entry(&tr.other, &tr.ih, tr.ts, tr.ts)],
+        // an entry whose 32 key bytes are not a point of the curve, carrying the genuine entry's timestamp and
+        // signature, listed before (or between) genuine entries: whatever is yielded must verify under ITS key
+        "undecodable-key-first" | "undecodable-key-between" => {
+            let bad_key = loop {
+                let k: [u8; 32] = rng.array();
+                if ed25519_dalek::VerifyingKey::from_bytes(&k).is_err() {
+                    break k;
+                }
+            };
+            let mut e = good.clone();
+            e[..32].copy_from_slice(&bad_key);
+            if forgery == "undecodable-key-first" {
+                vec![e, good]
+            } else {
+                vec![entry(&tr.other, &tr.ih, tr.ts + 5, tr.ts + 5), e, good]
+            }
+        }
         "empty-entry" => vec![good, vec![]],
         "short-entry" => vec![good[..103].to_vec()],
         _ => {
